@@ -343,17 +343,17 @@ namespace igris
 
         void erase(iterator newend)
         {
+            igris::array_destructor(newend, end());
             m_size = newend - m_data;
         }
 
         void erase(iterator first, iterator last)
         {
             size_t sz = last - first;
-            for (size_t i = 0; i < sz; ++i)
-            {
-                igris::destructor(first + i);
-            }
-            std::move(last, end(), first);
+            // shift the tail down by assignment, then destroy what is left
+            // over at the end
+            iterator newend = std::move(last, end(), first);
+            igris::array_destructor(newend, end());
             m_size -= sz;
         }
 
